@@ -121,8 +121,50 @@ def localise(f, v, ctx, budget=40):
     return cur
 
 
-def finding_key(f, v, obs):
+def _normalised_collision(f, v, ctx):
+    """Is this a case where the collection-level constraint (uniqueItems; size bounds of Set/Map) holds for the
+    supplied elements but not for the CONVERTED elements that get stored (or vice versa)?  Decided on the real
+    library: convert every element with the item field alone and compare the number of distinct results."""
+    t = f["t"]
+    try:
+        if t in ("seqeach", "seqpos", "tuple") and f.get("uniq") and v[0] in ("list", "deque", "tuple"):
+            elems = list(v[1])
+            if t == "seqeach":
+                fs = [f["item"]] * len(elems)
+            elif t == "tuple" and len(f["items"]) == 1:
+                fs = [f["items"][0]] * len(elems)
+            else:
+                fs = list(f["items"]) + [None] * len(elems)
+        elif t == "set" and f.get("item") and v[0] == "set":
+            elems = list(v[2]); fs = [f["item"]] * len(elems)
+        elif t == "mapkv" and v[0] == "dict":
+            elems = [k for k, _ in v[1]]; fs = [f["kf"]] * len(elems)
+        else:
+            return False
+        conv = []
+        for g, x in zip(fs, elems):
+            if g is None:
+                conv.append(x); continue
+            o = run_cases([(g, x)], ctx)[0]
+            if o[0] != "ok":
+                return False
+            conv.append(o[1])
+        def distinct(rs):
+            out = []
+            for r in rs:
+                pv = G.unreify(r, ctx.classes)
+                if not any(pv == q for q in out):
+                    out.append(pv)
+            return len(out)
+        return distinct(conv) < distinct(elems)
+    except Exception:  # noqa
+        return False
+
+
+def finding_key(f, v, obs, ctx=None):
     """Identifies the input shape of a spec failure: field kind + value kind + outcome kind."""
+    if ctx is not None and _normalised_collision(f, v, ctx):
+        return "C02/normalised-collision/%s/%s" % (f["t"] + (":imm" if f.get("imm") else ""), "accepted" if obs[0] == "ok" else obs[1])
     t = f["t"]
     if t == "num":
         t = "num:" + f["k"]
@@ -265,7 +307,7 @@ def run(rep, tier, pid="C02", prop_file="C02"):
                 else:
                     lf, lv = f, v
                 lo = run_cases([(lf, lv)], ctx)[0]
-                key = finding_key(lf, lv, lo)
+                key = finding_key(lf, lv, lo, ctx)
                 seen.add(key)
                 rep.finding(key, "documented rules and implementation disagree: %s given %s -> %s" % (
                     G.field_src(lf), G.py_src(lv), lo),
@@ -273,8 +315,12 @@ def run(rep, tier, pid="C02", prop_file="C02"):
                      "found_in": {"field": f, "value": v}})
             rep.obligation("spec-on-observed:docb", not r["spec_fail"],
                            "%d in-domain cases, %d spec failures" % (len(r["in_domain"]), len(r["spec_fail"])))
+            # a case on which the documented rules already fail is reported above (violation or listed finding);
+            # the model follows the documented rules there, so its disagreement on the same case is not a second fact
+            sf = set(r["spec_fail"])
+            r["mismatch"] = [i for i in r["mismatch"] if i not in sf]
             rep.obligation("correspondence:vset", not r["mismatch"],
-                           "%d cases, %d mismatches" % (len(cases), len(r["mismatch"])))
+                           "%d cases, %d mismatches (outside reported spec failures)" % (len(cases), len(r["mismatch"])))
             if r["mismatch"] and not any(not v["no_input"] for v in rep.violations) and not rep.known_hits:
                 i = r["mismatch"][0]
                 f, v = cases[i]
